@@ -289,7 +289,8 @@ def mk_service_class(w: World, idx: int, svc: Dict[str, Any]):
             _w.seen = dict(kwargs)
             sc = _w.script
             if "err" in sc:
-                raise UpnpActionError(error_code=sc["err"], error_desc="scripted")
+                # `desc` absent / None: UpnpActionError(error_code=c) without a description
+                raise UpnpActionError(error_code=sc["err"], error_desc=sc.get("desc"))
             res = dict(sc.get("ret", {}))
             # the library's own idiom (contrib/dummy_router.py): assign the related state variable and return
             # the UpnpStateVariable object itself
@@ -609,6 +610,11 @@ async def _run_ops(recipe, w, lines, tags, svcs, app, xfer, base, loopback):
         sc = {}
         if "err" in op:
             sc["err"] = op["err"]
+            sc["desc"] = op.get("desc")
+            code = op["err"]
+            tags.add("script:err-" + ("nocode" if code is None else "standard" if code in (401, 402, 501, 600, 601, 602, 603, 604, 605)
+                                       else "vendor" if 606 <= code <= 899 else "other")
+                     + ("-nodesc" if op.get("desc") is None else "-markupdesc" if any(c in op["desc"] for c in "<&]") else "-desc"))
         else:
             sc["ret"] = {k: val_from_json(v) for k, v in op.get("ret", {}).items()}
             if op.get("retvar") and adef is not None:
@@ -1090,7 +1096,12 @@ def g_script(rng, svc, act) -> Dict[str, Any]:
     c = rng.randrange(10)
     if c < 2:
         # `None`: UpnpActionError() without a code (the server reports 501 Action Failed)
-        return {"err": rng.choice([401, 402, 501, 600, 601, 602, 603, 604, 605, 700, 714, 899, 1, 42, None])}
+        # standard codes (UpnpActionErrorCode), vendor / action-specific codes (606..899) and a few other positive
+        # ones; without a description, with a plain one, with one containing markup
+        code = rng.choice([401, 402, 501, 600, 601, 602, 603, 604, 605,
+                           606, 607, 612, 700, 701, 702, 714, 718, 800, 801, 899, rng.randrange(606, 900), 1, 42, None])
+        desc = rng.choice([None, None, "Action Failed", "scripted", "no <such> object & \"more\"", "]]> é\n"])
+        return {"err": code} if desc is None else {"err": code, "desc": desc}
     outs = [o for o in act["out"]]
     if c == 2 and outs:
         outs = rng.sample(outs, rng.randrange(0, len(outs) + 1))
@@ -1323,6 +1334,23 @@ CORPUS.append(
         {"kind": "raw", "svc": 0, "act": "Set", "class": "outofrange-listed", "soapaction": _SB, "ret": {"L": 1}, "body": env_tree(_S_BOTH["type"], "Set", [("L", "50"), ("H", "2"), ("W", "")])},
         {"kind": "raw", "svc": 0, "act": "Set", "class": "notallowed-inrange", "soapaction": _SB, "ret": {"L": 1}, "body": env_tree(_S_BOTH["type"], "Set", [("L", "7"), ("H", "2"), ("W", "cat")])},
         {"kind": "raw", "svc": 0, "act": "Set", "class": "valid", "soapaction": _SB, "ret": {"L": 5}, "body": env_tree(_S_BOTH["type"], "Set", [("L", "1"), ("H", "9"), ("W", "")])},
+    ]})
+
+
+CORPUS.append(
+    # seeded regression (errorDescription looked up in the UpnpActionErrorCode enum): a handler raising UpnpActionError with
+    # a vendor / action-specific code and NO description is within its contract; the caller must get that code
+    {"defn": {"svcs": [_S0], "dev": _dev([0])}, "ops": [
+        {"kind": "call", "svc": 0, "act": "Act", "args": {"A": 5, "S": "a"}, "err": 701},
+        {"kind": "call", "svc": 0, "act": "Act", "args": {"A": 5, "S": "a"}, "err": 800},
+        {"kind": "call", "svc": 0, "act": "Act", "args": {"A": 5, "S": "a"}, "err": 606},
+        {"kind": "call", "svc": 0, "act": "Act", "args": {"A": 5, "S": "a"}, "err": 601},
+        {"kind": "call", "svc": 0, "act": "Act", "args": {"A": 5, "S": "a"}, "err": 718, "desc": "no <such> object & more"},
+        {"kind": "call", "svc": 0, "act": "Nop", "args": {}, "err": 899, "desc": "Action Failed"},
+        {"kind": "raw", "svc": 0, "act": "Act", "class": "valid", "soapaction": _SA, "err": 701,
+         "body": env_tree(_S0["type"], "Act", [("A", "5"), ("S", "a")])},
+        {"kind": "raw", "svc": 0, "act": "Act", "class": "valid", "soapaction": _SA, "err": 402, "desc": "]]> <x/>",
+         "body": env_tree(_S0["type"], "Act", [("A", "5"), ("S", "a")])},
     ]})
 
 
